@@ -59,6 +59,22 @@ for cl, ss in by_clause('C17', lambda e: True).items():
           'class-shadowed attributes (errno, filename, value, name, msg, lineno, ...) read as defaults; '
           'classes with required __new__ arguments and exception groups are masked by TypeError')
 
+# ---- C19
+for cl, ss in by_clause('C19', lambda e: 'selector-collision' in e['signature']).items():
+  finding('C19', cl, ss, 'dynamic registration: an import alias equal to a sibling module\'s name puts two '
+          'different objects on one selector (ImportStatement.partial_path substitutes the alias into the '
+          'module path): `import pkg.beta.other as util` then `from pkg.beta import util` -> ValueError')
+for cl, ss in by_clause('C19', lambda e: 'root-not-imported' in e['signature'] or 'attribute-not-found' in e['signature']
+                        or 'holder_receives=other_class' in e['signature']).items():
+  finding('C19', cl, ss, 'dynamic registration: registering a method re-initialises EXISTING references through '
+          'the CURRENT file\'s parse context, so a reference written in an earlier file is re-pointed to '
+          'another module or the later parse fails with NameError/AttributeError')
+for cl, ss in by_clause('C19', lambda e: ('spellings=many' in e['signature'] and 'other_class' not in e['signature'])
+                        or 'method-module-mismatch' in e['signature'] or 'raises LookupError' in e['signature']).items():
+  finding('C19', cl, ss, 'dynamic registration: configuring a method through a second import spelling of its class '
+          're-registers the class under a selector built from that spelling, orphaning the bindings made '
+          'through the first spelling (`u.K.a = 1` then `util.K.meth.m = 2` -> K().a == 0)')
+
 fixed = [
  ('C12', '37937d6', 'unlock_config did not restore the lock when its body raised'),
  ('C08', '1489b30', 'ParsedBindingKey.__equal__ typo: two hooks spelling one parameter differently were not a conflict'),
@@ -84,6 +100,7 @@ fixed = [
  ('C06', '98cc789', 'same defect as seen from the canonical-text clause'),
  ('C14', '8275931', 'a namespace package on sys.path made the package reader raise TypeError instead of moving on / IOError'),
  ('C06', 'ecf8852', 'config_str raised for values whose repr tokenizes badly or names unknown/ambiguous references'),
+ ('C19', '4a00414', "config_str() put the dynamic-registration import after modules whose names sort before '__gin__', so the text did not parse"),
  ('C15', '60af78b', 'under dynamic registration skip_unknown consulted only the registry (dropped importable-but-unregistered targets, kept registered-but-unimportable ones)'),
 ]
 for pid, commit, text in fixed:
